@@ -6,3 +6,6 @@ export CARGO_NET_OFFLINE=true
 export RUSTFLAGS="--cfg essential_base_verif"
 cargo build --offline -p vh --profile release --target-dir ../target-release
 cargo build --offline -p vh --target-dir ../target-dev
+cargo build --offline -p vh-lock --profile release --target-dir ../target-release
+# warm the Miri sysroot and the lock harness under Miri (used by the C20 quick check)
+MIRIFLAGS="-Zmiri-ignore-leaks" RUSTFLAGS="" cargo +nightly miri run --offline -p vh-lock --target-dir ../target-miri -- --histories 1 --threads 2 --ops 1 >/dev/null 2>&1 || true
